@@ -398,6 +398,32 @@ def check_arff_sparse_lines(ctx, n):
     for (case, exp), mo in zip(metas, ctx.get_model().batch(reqs)):
         if mo != exp: ctx.disagree("C12.sparse_parse", case, repr(exp)[:300], repr(mo)[:300])
 
+def check_arff_levels(ctx, n):
+    """the level list of a nominal ARFF attribute in the Weka dialect: the model of ArffAttrReader._split (theorem arff_nominal_levels_roundtrip) and the reader agree with the levels that were written"""
+    from coba.pipes.readers import ArffAttrReader
+    rng = ctx.rng
+    reqs, metas = [], []
+    for _ in range(n):
+        q = rng.choice(["'", '"'])
+        levels = []
+        for _ in range(rng.choice([1, 2, 3, 5])):
+            l = gen_token(rng, 0.35) if rng.random() < 0.8 else rng.choice(["", "?", " ", "a b", "a ,b", ", ", "x\\", "'", "0"])
+            if l not in levels: levels.append(l)
+        def wq(v):
+            w = weka_quote(v)
+            return (q + w[1:-1] + q) if (w != v and w.startswith("'")) else w
+        body = ",".join(wq(l) for l in levels)
+        case = dict(body=body, quote=q, levels=levels)
+        ctx.count("arff-levels", repr(case), len(levels) >= 2)
+        try:
+            rd = ArffAttrReader(True); got = list(rd._split(body, rd._r_comma))
+        except Exception as e: got = "raises " + errname(e)
+        if got != levels:
+            ctx.fail(["arff-levels", "reader", "rejected" if isinstance(got, str) else "misread"], "ArffAttrReader split the level list %r into %r, written was %r" % (body, got, levels), case); continue
+        reqs.append((12, [7, [ord(c) for c in body]])); metas.append((case, [[ord(c) for c in l] for l in levels]))
+    for (case, exp), mo in zip(metas, ctx.get_model().batch(reqs)):
+        if mo != exp: ctx.disagree("C12.levels_parse", case, repr(exp)[:300], repr(mo)[:300])
+
 def run(ctx):
     tmpdir = tempfile.mkdtemp(prefix="c12_", dir=os.path.join(VERIF, ".work"))
     try:
@@ -408,6 +434,7 @@ def run(ctx):
         check_arff(ctx, ctx.n(400, 20000))
         check_arff_lines(ctx, ctx.n(300, 8000))
         check_arff_sparse_lines(ctx, ctx.n(300, 8000))
+        if os.path.exists(os.path.join(VERIF, "coq", "theories", "C12", "ModelArffAttr.v")): check_arff_levels(ctx, ctx.n(300, 8000))
     finally:
         shutil.rmtree(tmpdir, ignore_errors=True)
 
